@@ -83,18 +83,20 @@ Grace(h) == \/ (h >= Cfg.initial - 1 /\ h <= Cfg.initial - 1 + 120)
             \/ \E i \in DOMAIN st.versions : h >= st.versions[i].h /\ h <= st.versions[i].h + 120
 Evidenced(p) == p \in Range(ev'.begin.evidence)
 \* validators of st that stay validators in st' (nothing about them is recomputed in BeginBlock except marks)
-NewBits(p) == [ValOf(st, p).bits EXCEPT ![(H % 24) + 1] = (IF IsAbsent(p) THEN 1 ELSE 0)]
-NewCount(p) == Cardinality({j \in 1..24 : NewBits(p)[j] = 1})
-\* more than 12 of the last 24 blocks missed (counting this one)
-TooAbsent(p) == IsAbsent(p) /\ Len(ValOf(st, p).bits) = 24 /\ NewCount(p) > 12
+\* the absence window: 24 blocks in the node; a model may state a smaller one in its configuration record
+Window == IF "window" \in DOMAIN Cfg THEN Cfg.window ELSE 24
+NewBits(p) == [ValOf(st, p).bits EXCEPT ![(H % Window) + 1] = (IF IsAbsent(p) THEN 1 ELSE 0)]
+NewCount(p) == Cardinality({j \in 1..Window : NewBits(p)[j] = 1})
+\* more than half of the window missed (more than 12 of the last 24 blocks), counting this one
+TooAbsent(p) == IsAbsent(p) /\ Len(ValOf(st, p).bits) = Window /\ NewCount(p) > Window \div 2
 C18_Marks ==
    Clause("C18", "AbsenceWindow", IsKind("BeginBlock") /\ NoPanic,
           \A p \in ValNames(st) \cap ValNames(st') :
              LET b2 == ValOf(st', p).bits IN
-             /\ Len(b2) = 24
-             /\ IF TooAbsent(p) THEN (\A j \in 1..24 : b2[j] = 0) /\ ValOf(st', p).toDrop      \* switched off: window cleared, dropped at the next update
+             /\ Len(b2) = Window
+             /\ IF TooAbsent(p) THEN (\A j \in 1..Window : b2[j] = 0) /\ ValOf(st', p).toDrop      \* switched off: window cleared, dropped at the next update
                 ELSE b2 = NewBits(p)
-             /\ ValOf(st', p).absent = Cardinality({j \in 1..24 : b2[j] = 1}),
+             /\ ValOf(st', p).absent = Cardinality({j \in 1..Window : b2[j] = 1}),
           [at |-> Where, absent |-> ev'.begin.absent, before |-> [p \in ValNames(st) |-> ValOf(st, p).bits], after |-> [p \in ValNames(st') |-> ValOf(st', p).bits]])
 C18_Absent ==
    Clause("C18", "TooManyAbsencesSwitchOffAndJail", IsKind("BeginBlock") /\ NoPanic /\ (\E p \in ValNames(st) : TooAbsent(p)),
